@@ -82,8 +82,8 @@ CLAIMS = {
          "DESIGN.md section 4 C16"),
  "C18": ("byte-layout abstract interpretation of parser and serialiser (fields tracked as byte ranges of a symbolic input of concrete length), exhaustive evaluation of the header byte codec, struct size computation",
          "Decided for 12 wire types of OpenVPN, WireGuard and RDP and every length at/around their size bounds: parse-then-serialise reproduces the input byte for byte on every accepting path, lengths outside the bounds are rejected on every path "
-         "(exact size for fixed-size types), no fixed-width decoding reads past its slice, the OpenVPN header byte round-trips for all 256 values, declared size constants equal encoded struct sizes. The Winbox auth parser's field ranges tile the reassembled buffer (proved end-to-start). Winbox (value-dependent chunking) and "
-         "serialise-then-parse of arbitrary field values are not decided.",
+         "(exact size for fixed-size types), no fixed-width decoding reads past its slice, the OpenVPN header byte round-trips for all 256 values, declared size constants equal encoded struct sizes. The Winbox auth parser's field ranges tile the reassembled buffer (proved end-to-start) and the chunk arithmetic of its parser and serialiser equals the chunk format on reference sequences for payloads of 35..766 bytes. "
+         "Serialise-then-parse of arbitrary field values is not decided.",
          "DESIGN.md section 4 C18"),
  "C07": ("AST extraction of cryptobyte read sequences from the repo's parser and from the toolchain's crypto/tls source (oracle parsed on every run); SSA dominance/provenance rules for the record gate, length and placeholders",
          "Decided: the hello is read only behind the record-type-22 gate with exactly the announced length; the fixed part and all 18 extension cases shared with crypto/tls perform the same ordered reads with the same case constants; "
